@@ -5,6 +5,7 @@ import (
 	"bytes"
 	"context"
 	"encoding/json"
+	"errors"
 	"fmt"
 	"math/rand"
 	"os"
@@ -98,8 +99,14 @@ type c10Ping struct{ N int }
 func (a *c10Actor) OnReceive(ctx vivid.ActorContext) {
 	switch m := ctx.Message().(type) {
 	case *vivid.OnLaunch:
+		// every actor of the stress is a subscriber: its termination removes it from the stream while others publish
+		ctx.EventStream().Subscribe(ctx, ves.ActorSpawnedEvent{})
 		if a.depth < 1 {
-			_, _ = ctx.ActorOf(&c10Actor{depth: a.depth + 1, fail: a.fail})
+			// an unnamed child, spawned from the actor's own goroutine while other goroutines spawn unnamed actors too:
+			// the name the library picks must be free
+			if _, err := ctx.ActorOf(&c10Actor{depth: a.depth + 1, fail: a.fail}); err != nil && errors.Is(err, vivid.ErrorActorAlreadyExists) {
+				fmt.Println("STRESS-INCONSISTENT-RESULT an unnamed spawn was refused: " + err.Error())
+			}
 		}
 	case c10Fail:
 		if a.fail != nil {
@@ -217,6 +224,9 @@ func c10Stress(args []string) int {
 			mu.Unlock()
 			if n < 24 || (n < 48 && rng.Intn(2) == 0) {
 				ref, err := sys.ActorOf(&c10Actor{fail: &fails}, vivid.WithActorSupervisionStrategy(vivid.OneForOneStrategy(maker)))
+				if err != nil && errors.Is(err, vivid.ErrorActorAlreadyExists) {
+					fmt.Println("STRESS-INCONSISTENT-RESULT an unnamed spawn was refused: " + err.Error())
+				}
 				if err == nil {
 					mu.Lock()
 					refs = append(refs, ref)
